@@ -322,7 +322,7 @@ theorem seg_data (hn : (rd.h.mtype == cfg.mtSetName) = false) (hr : (rd.h.mtype 
           · rw [hauid]; simp [hel, hnfA]
   have hdata : Spec.ErrExt ["C14"] (Spec.afterBuf cfg a rd) (Spec.checkData cfg (Spec.afterBuf cfg a rd) rd.h evs) := by
     rw [hdataEq]; exact Spec.ErrExt.refl _ _
-  have hW : Spec.CoreExt others (Spec.afterBuf cfg a rd) (Spec.checkDepartures cfg Z none evs) :=
+  have hW : Spec.CoreExt othersCore (Spec.afterBuf cfg a rd) (Spec.checkDepartures cfg Z none evs) :=
     ((ext_others hdata).trans (core_others hZ)).trans (ext_others (dep_ext hs0 t0 n q evs he
       (hdata.core.trans (hZ.mono (by simp))) none dt.dep (fun u hu => by cases hu)))
   exact ⟨segGoal_of hseg rfl (seg_close hs0 t0 n q evs he hW),
@@ -377,7 +377,7 @@ theorem seg_setName (hn : (rd.h.mtype == cfg.mtSetName) = true) (nm : List Nat)
     have p2 := p1.trans (infoOf_presAny cfg _ m0)
     exact infoTo_trans (infoTo_trans i1 i2) (infoTo_rebase q.info p2)
   have he' : s2.out = s0'.out ++ evs := by rw [← hs0']; exact he
-  have hW : Spec.CoreExt others ((Spec.afterBuf cfg a rd).upd rd.uid (fun m => { m with name := nm }))
+  have hW : Spec.CoreExt othersCore ((Spec.afterBuf cfg a rd).upd rd.uid (fun m => { m with name := nm }))
       (Spec.checkInfos (Spec.checkDepartures cfg (Spec.checkAcks cfg
         ((Spec.afterBuf cfg a rd).upd rd.uid (fun m => { m with name := nm })) rd.uid false evs) none evs) evs) := by
     rw [Spec.checkAcks_false_ok cfg _ rd.uid evs hnil]
@@ -412,7 +412,7 @@ theorem seg_ready (hn : (rd.h.mtype == cfg.mtSetName) = false) (hr : (rd.h.mtype
       | none => exact Pres.refl _
       | some m' => exact infoOf_presAny cfg s0' m'
     exact infoTo_trans i1 (infoTo_rebase q.info p1)
-  have hW : Spec.CoreExt others ((Spec.afterBuf cfg a rd).upd rd.uid (fun m => { m with pid := pid }))
+  have hW : Spec.CoreExt othersCore ((Spec.afterBuf cfg a rd).upd rd.uid (fun m => { m with pid := pid }))
       (Spec.checkInfos (Spec.checkDepartures cfg (Spec.checkAcks cfg
         ((Spec.afterBuf cfg a rd).upd rd.uid (fun m => { m with pid := pid })) rd.uid false evs) none evs) evs) := by
     rw [Spec.checkAcks_false_ok cfg _ rd.uid evs hnil]
